@@ -1,6 +1,7 @@
 package vc
 
 import (
+	"govc/internal/spec"
 	"fmt"
 	"go/token"
 	"go/types"
@@ -123,6 +124,7 @@ type fctx struct {
 	modeNoAssigns bool
 	noRecCheck    bool
 	freshGlobals  []string
+	ghostChecked  map[*spec.FuncContract]bool
 	rfErrsFinal   string // yielderrs after the function's (top-level) range-over-func loop, 0 on paths that never reach it
 }
 
